@@ -367,6 +367,7 @@ struct Thread {
     joined: bool,
     final_ts: u32,
     inst: u32,
+    last_probe: usize,
 }
 
 struct Sem {
@@ -783,6 +784,7 @@ impl Runtime {
             joined: false,
             final_ts: 0,
             inst,
+            last_probe: usize::MAX,
         };
         if tid < self.threads.len() {
             self.threads[tid] = th;
@@ -1402,6 +1404,18 @@ pub fn op_end() -> u64 {
     used
 }
 
+/// The reach probe the current thread passed most recently (usize::MAX if none), and the kind
+/// of the operation it is in (255 if none).
+pub fn last_probe_and_op() -> (usize, u8) {
+    match rt() {
+        Some(r) => {
+            let t = &r.threads[r.current];
+            (t.last_probe, if t.in_op { t.op } else { 255 })
+        }
+        None => (usize::MAX, 255),
+    }
+}
+
 pub fn threads_in_api() -> u32 {
     rt().map(|r| r.in_api).unwrap_or(0)
 }
@@ -1422,6 +1436,8 @@ pub fn set_node_count_hint(n: u64) {
 pub fn probe(id: usize, mark: bool) {
     if let Some(rt) = rt() {
         rt.stats.probes[id % N_PROBES] += 1;
+        let cur = rt.current;
+        rt.threads[cur].last_probe = id;
         if mark {
             rt.mark_pending = true;
         }
@@ -1433,6 +1449,8 @@ pub fn probe(id: usize, mark: bool) {
 pub fn event(id: usize, arg: usize) {
     if let Some(rt) = rt() {
         rt.stats.probes[id % N_PROBES] += 1;
+        let cur = rt.current;
+        rt.threads[cur].last_probe = id;
         if rt.aborting {
             return;
         }
